@@ -231,7 +231,16 @@ fn replay_dist1(beh: &Value) -> Value {
     let names: Vec<String> = (0..ns).map(|i| format!("s{i}")).collect();
     let table = json!({"k": 5, "rc": true, "names": names, "rows": beh["rows"]});
     // min_freq with ceil(ns * f) = thr
-    let minf = if thr == 0 { 0.0 } else { ((1000 * thr) / ns) as f64 / 1000.0 };
+    // two decimal values with ceil(ns * f) = thr: just below thr/ns, and just above (thr-1)/ns
+    // (the latter has a small fractional part, which a round-instead-of-ceil slip would get wrong)
+    let nrows = beh["rows"].as_array().map(|a| a.len()).unwrap_or(0);
+    let minf = if thr == 0 {
+        0.0
+    } else if nrows % 2 == 0 {
+        ((1000 * thr) / ns) as f64 / 1000.0
+    } else {
+        ((1000 * (thr - 1)) / ns + 1) as f64 / 1000.0
+    };
     let ev = ops::exec(&json!({"op": "distcmd", "w": 64, "table": table, "min_freq": minf, "filt_ambig": true}));
     if ev["panic"].as_str().unwrap_or("") != "" {
         return verdict("dist1", false, "panic", beh["pairs"].clone(), ev);
